@@ -66,6 +66,11 @@ def hexPrefix : Bytes → Bool
   | 48 :: x :: h :: _ => (x.toNat == 120 || x.toNat == 88) && (digitIn 16 h).isSome
   | _ => false
 
+/-- base 0 without `0x`: a leading `0` means octal -/
+def baseOf : Bytes → Nat
+  | 48 :: _ => 8
+  | _ => 10
+
 /-- the syntax `strtol(s, &end, 0)` / `strtoul(s, &end, 0)` accept -/
 def strtoBase0 (s : Bytes) : IntLit :=
   let ws := (s.takeWhile isSpace).length
@@ -75,10 +80,7 @@ def strtoBase0 (s : Bytes) : IntLit :=
     let (v, n) := readDigits 16 (s2.drop 2) 0 0
     ⟨neg, v, ws + sg + 2 + n⟩
   else
-    let base := match s2 with
-      | 48 :: _ => 8
-      | _ => 10
-    let (v, n) := readDigits base s2 0 0
+    let (v, n) := readDigits (baseOf s2) s2 0 0
     if n == 0 then ⟨false, 0, 0⟩ else ⟨neg, v, ws + sg + n⟩
 
 def LONG_MAX : Nat := 2 ^ 63 - 1
